@@ -146,8 +146,10 @@ func vpH_C07_dv() {
 // {5,1023,1024,1025,2047,2049} carries doc values; one reader visits them in
 // orders that cross the boundaries repeatedly.
 func vpH_C07_chunks() {
-	total := 1030
-	cand := []int{5, 1023, 1024, 1025}
+	// 2050 documents = three 1024-document chunks: with the subset {5, 2049}
+	// (or {2049} alone) the field skips a whole chunk
+	total := 2050
+	cand := []int{5, 1023, 1024, 2049}
 	if vpThorough() {
 		total = 2050
 		cand = []int{5, 1023, 1024, 1025, 2047, 2049}
@@ -189,7 +191,7 @@ func vpH_C07_chunks() {
 	}
 	r, err := seg.DocumentValueReader([]string{"b"})
 	vpMust(err, "DocumentValueReader")
-	orders := [][]int{{5, 1023, 1024, 1025, 1029}, {1025, 1024, 1023, 5, 1024}, {1024, 5, 1025, 6, 1023}}
+	orders := [][]int{{5, 1023, 1024, 2049, 1029}, {2049, 1024, 1023, 5, 1024}, {1024, 5, 2049, 6, 1023}}
 	if vpThorough() {
 		orders = [][]int{{5, 1023, 1024, 1025, 2047, 2049}, {2049, 2047, 1025, 1024, 1023, 5}, {1024, 2049, 5, 2047, 1023, 1025, 7, 2048}}
 	}
